@@ -342,6 +342,14 @@ func genC18(r *rng, thorough bool, emit func(FlowScenario)) {
 			scr := t.leafScript(0, 0, true, 1, 2, true, post)
 			emit(singleRun(cfg, scr))
 			emit(asFlowStep(cfg, scr, t))
+			if cfg.PrepS != "absent" && cfg.Impl != "zeroptr" && cfg.Impl != "zeroval" && pk < 2 {
+				// the context ends while a SUCCESSFUL prep is running: the run is cut short with an error — it does not
+				// "succeed" with the empty action
+				cs := scr
+				cs.Prep += "*"
+				emit(singleRun(cfg, cs))
+				emit(asFlowStep(cfg, cs, t))
+			}
 			// … and when the result comes from a later attempt or from the fallback
 			for _, bud := range []int{1, 2} {
 				c2 := k
